@@ -388,6 +388,33 @@ def literal_variants(name, m, sv, limit=16):
     return out
 
 
+def literal_inputs(name, m, sv, limit=1200):
+    """Plain states built from the literals of the module's code: the literal put in front of / behind a documented
+    number, over its head, and in front of a number that itself starts with the literal (a prefix that is stripped
+    once must not be part of what is returned)."""
+    out = []
+    lits = [x for x in code_literals(m) if len(x) <= 10]
+    lits.sort(key=lambda x: (-len(x), x))
+    xs = []
+    for s_, v in sv[:2]:
+        for x in (v, s_):
+            if isinstance(x, str) and x not in xs:
+                xs.append(x)
+    valid = literal_variants(name, m, sv)
+    for lit in lits[:30]:
+        for x in xs:
+            over = lit + x[len(lit):] if len(x) > len(lit) else lit
+            out += [lit + x, lit + ' ' + x, lit + lit + x, x + lit, over, lit + over, lit + ' ' + over,
+                    lit.lower() + x, lit + ':' + x]
+            rep = _repair(m, over)[:1] if len(out) < limit else []
+            for u in rep:
+                out += [u, lit + u]
+        for u in valid[:6]:
+            out += [lit + u, lit + ' ' + u]
+    out = list(dict.fromkeys(valid + out))
+    return out[:limit]
+
+
 # ------------------------------------------------------------------------------------------ digit runs
 
 def run_numbers(name, m, sv, limit=120):
